@@ -1,3 +1,4 @@
+import Zeno.Proofs.Flow
 import Zeno.Props.C12
 import Zeno.Props.C13
 import Zeno.Proofs.Stages
@@ -49,5 +50,19 @@ theorem c16_in_flight_bounded (evs : List Zeno.Model.Pipeline.Ev)
     (Zeno.Model.Pipeline.ids (Zeno.Model.Pipeline.run Zeno.Gen.Pipeline.facts Zeno.Gen.Item.facts {} evs)).count x ≤ 1 :=
   List.nodup_iff_count.1
     (Zeno.Model.Pipeline.inv_run _ _ (by decide) (by decide) evs {} (Zeno.Model.Pipeline.inv_init _) he).nodup x
+
+/-- **Back to idle.** In the flow through the channels and worker pools (Model/Flow.lean, any `--workers`, any interleaving): once
+nothing is left inside the pipeline — no seed in a channel or held by a worker, no outlink or acknowledgement waiting for the
+source — no token is in use. -/
+theorem c16_idle_means_all_tokens_free (w : Nat) (acts : List Zeno.Model.Flow.Act)
+    (hidle : (Zeno.Model.Flow.run ⟨w, w, w⟩ {} acts).busy = false) : (Zeno.Model.Flow.run ⟨w, w, w⟩ {} acts).used = 0 := by
+  have h := Zeno.Model.Flow.inv_run ⟨w, w, w⟩ acts {} (Zeno.Model.Flow.inv_init _)
+  have hb : ¬ (0 < (Zeno.Model.Flow.run ⟨w, w, w⟩ {} acts).seeds + (Zeno.Model.Flow.run ⟨w, w, w⟩ {} acts).c3o +
+      (Zeno.Model.Flow.run ⟨w, w, w⟩ {} acts).fo + (Zeno.Model.Flow.run ⟨w, w, w⟩ {} acts).cF + (Zeno.Model.Flow.run ⟨w, w, w⟩ {} acts).cP) := by
+    intro hp
+    have : (Zeno.Model.Flow.run ⟨w, w, w⟩ {} acts).busy = true := by simp [Zeno.Model.Flow.S.busy, hp]
+    rw [this] at hidle; cases hidle
+  have := h.acct
+  omega
 
 end Zeno.Props.C16
